@@ -1501,6 +1501,8 @@ class Interp:
                         return i
                 raise Raised("ValueError")
             if f.name == "append":
+                if len(vals) != 1:
+                    raise Raised(f"TypeError: list.append() takes exactly one argument ({len(vals)} given)")
                 f.lst.append(vals[0])
                 return None
             if f.name == "extend":
